@@ -262,17 +262,30 @@ def _force_order(flav, bp, net, pops, oset):
 
 # ----------------------------------------------------------------------------- generation
 
+KINDS = {
+    "D1BP": ["pos", "signed", "cplx", "float", "floatc"],
+    "L1BP": ["pos", "signed", "cplx", "float", "floatc"],
+    "D2BP": ["pos", "signed", "cplx", "float", "floatc"],
+    "L2BP": ["pos", "signed", "cplx", "float", "floatc"],
+    "HD1BP": ["pos", "pos", "cplx", "float"],
+    "HV1BP": ["pos", "pos", "signed", "cplx", "float", "floatc"],
+}
+
+
 def gen_net(rng, flav, kind, size, **kw):
     """a non-degenerate acyclic network for the flavour whose totals fit the exact domain"""
     gk, norm = U.FLAVS[flav]
-    for _ in range(200):
+    for _ in range(400):
         if gk == "dense":
             net = U.gen_dense(rng, size, kind, phys=(norm == 2), dmax=2 if norm == 2 else 3, **kw)
         elif gk == "lazy":
             net = U.gen_lazy(rng, size, kind, phys=(norm == 2), **kw)
         else:
-            net = U.gen_hyper(rng, size, kind, dmax=2 if flav == "HV1BP" or rng.random() < 0.6 else 3,
-                              uniform_dim=(flav == "HV1BP"), **kw)
+            small = kind in ("float", "floatc") or size <= 3
+            net = U.gen_hyper(rng, size, kind, dmax=3 if (small and flav != "HV1BP" and rng.random() < 0.4) else 2,
+                              uniform_dim=(flav == "HV1BP"), bonds_only=kind in ("signed", "cplx", "floatc"), **kw)
+            if net.exact and len(net.labels()) > 8:
+                continue
         if net.exact and not U.fits(net, norm):
             continue
         if U.Ref(net, norm).degenerate():
@@ -299,8 +312,8 @@ def rand_opts(r, flav, damped_ok=True):
     return o
 
 
-KINDS_1 = ["pos", "pos", "signed", "cplx", "float"]
-KINDS_2 = ["pos", "signed", "cplx", "float"]
+def is_float(kind):
+    return kind in ("float", "floatc")
 
 
 def object_traces(seed, n, tid0, sizes):
@@ -311,10 +324,8 @@ def object_traces(seed, n, tid0, sizes):
     for k in range(n):
         flav = flavs[k % len(flavs)]
         gk, norm = U.FLAVS[flav]
-        kind = r.choice(KINDS_1 if norm == 1 else KINDS_2)
-        if flav == "HD1BP" and kind == "signed":
-            kind = "pos"     # its sum-normalised initial messages are singular for zero-sum vectors
-        size = r.choice(sizes["float"] if kind == "float" else (sizes["n2"] if norm == 2 else sizes["n1"]))
+        kind = r.choice(KINDS[flav])
+        size = r.choice(sizes["float"] if is_float(kind) else (sizes["n2"] if norm == 2 else sizes["n1"]))
         kw = {}
         if gk == "dense":
             kw["shape"] = r.choice(["random", "random", "chain", "star", "binary"])
@@ -344,12 +355,10 @@ def entry_records(seed, n, tid0, sizes):
     for k in range(n):
         flav = flavs[k % len(flavs)]
         gk, norm = U.FLAVS[flav]
-        kind = r.choice(KINDS_1 if norm == 1 else KINDS_2)
-        if flav == "HD1BP" and kind == "signed":
-            kind = "pos"
+        kind = r.choice(KINDS[flav])
         scalar = gk != "lazy" and norm == 1 and r.random() < 0.12
         kw = {"scalar": True} if scalar else {}
-        size = r.choice(sizes["float"] if kind == "float" else (sizes["n2"] if norm == 2 else sizes["n1"]))
+        size = r.choice(sizes["float"] if is_float(kind) else (sizes["n2"] if norm == 2 else sizes["n1"]))
         net = gen_net(rng, flav, kind, size, **kw)
         ref = U.Ref(net, norm)
         rec = base_record("entry", tid0 + k, flav, net)
@@ -410,8 +419,8 @@ def gauge_records(seed, n, tid0, sizes):
         fn = fnames[k % len(fnames)]
         lazy = "l2bp" in fn.lower()
         flav = "L2BP" if lazy else "D2BP"
-        kind = r.choice(KINDS_2)
-        size = r.choice(sizes["float"] if kind == "float" else sizes["n2"])
+        kind = r.choice(KINDS[flav])
+        size = r.choice(sizes["float"] if is_float(kind) else sizes["n2"])
         net = gen_net(rng, flav, kind, size)
         rec = base_record("gauge", tid0 + k, flav, net)
         rec["fn"] = fn
@@ -532,7 +541,7 @@ def group_records(seed, n, tid0, sizes):
     for k in range(n):
         flav = flavs[k % len(flavs)]
         gk, norm = U.FLAVS[flav]
-        net = gen_net(rng, flav, r.choice(["float", "floatc"]), r.choice(sizes["float"]))
+        net = gen_net(rng, flav, r.choice([k2 for k2 in KINDS[flav] if is_float(k2)]), r.choice(sizes["float"]))
         vals = []
         rec = {"ev": "group", "tid": tid0 + k, "flav": flav, "exc": "", "variants": []}
         try:
